@@ -11,6 +11,7 @@
 #include <pthread.h>
 #include "internal.h"
 #include "port.h"
+#include "verif.h"
 
 /*
  * Structs
@@ -41,10 +42,14 @@ void
 ldb_mutex_lock(ldb_mutex_t *mtx) {
   if (pthread_mutex_lock(&mtx->handle) != 0)
     abort(); /* LCOV_EXCL_LINE */
+
+  LCDB_MTX(mtx, 1);
 }
 
 void
 ldb_mutex_unlock(ldb_mutex_t *mtx) {
+  LCDB_MTX(mtx, 0);
+
   if (pthread_mutex_unlock(&mtx->handle) != 0)
     abort(); /* LCOV_EXCL_LINE */
 }
@@ -67,20 +72,30 @@ ldb_cond_destroy(ldb_cond_t *cond) {
 
 void
 ldb_cond_signal(ldb_cond_t *cond) {
+  LCDB_EV(("CvSignal", "\"cv\":%d", LCDB_ID(cond)));
+
   if (pthread_cond_signal(&cond->handle) != 0)
     abort(); /* LCOV_EXCL_LINE */
 }
 
 void
 ldb_cond_broadcast(ldb_cond_t *cond) {
+  LCDB_EV(("CvBcast", "\"cv\":%d", LCDB_ID(cond)));
+
   if (pthread_cond_broadcast(&cond->handle) != 0)
     abort(); /* LCOV_EXCL_LINE */
 }
 
 void
 ldb_cond_wait(ldb_cond_t *cond, ldb_mutex_t *mtx) {
+  LCDB_EV(("CvWait", "\"cv\":%d", LCDB_ID(cond)));
+  LCDB_MTX(mtx, 0);
+
   if (pthread_cond_wait(&cond->handle, &mtx->handle) != 0)
     abort(); /* LCOV_EXCL_LINE */
+
+  LCDB_MTX(mtx, 1);
+  LCDB_EV(("CvWoke", "\"cv\":%d", LCDB_ID(cond)));
 }
 
 /*
